@@ -180,8 +180,18 @@ pub fn gen_plan(property: &str, seed: u64, index: u64, tier: Tier) -> Plan {
                 let quiet_phase = late && plies < 100;
                 let burst = if quiet_phase { 0 } else if rng.chance(2, 3) { rng.range(1, 4) } else { 0 };
                 for _ in 0..burst {
-                    let text = match rng.below(10) {
+                    let text = match rng.below(11) {
                         0 | 1 => garbage(&mut rng),
+                        10 => {
+                            // a castling attempt, whatever the position allows
+                            let home = if pos.stm == crate::model::Side::White { '1' } else { '8' };
+                            match rng.below(4) {
+                                0 => "O-O".to_string(),
+                                1 => "O-O-O".to_string(),
+                                2 => format!("e{}g{}", home, home),
+                                _ => format!("e{}c{}", home, home),
+                            }
+                        }
                         2 | 3 | 4 => {
                             let l = labels[rng.below(labels.len())].clone();
                             corrupt(&mut rng, &l)
@@ -384,6 +394,9 @@ pub fn gen_plan(property: &str, seed: u64, index: u64, tier: Tier) -> Plan {
             let (_, s) = choose_start(&mut rng, &[(StartKind::Endgame, 3), (StartKind::Initial, 2), (StartKind::Special, 1)]);
             start = s;
             let len = rng.range(104, if thorough { 220 } else { 130 });
+            if rng.chance(1, 2) {
+                knobs.insert("rewrap_at".to_string(), rng.range(1, 100) as i64);
+            }
             let mut pos = start.clone();
             let mut own: [Option<Mv>; 2] = [None, None];
             let policy = if rng.chance(1, 2) { Policy::Shuffle } else { Policy::Frozen };
@@ -629,9 +642,16 @@ pub fn exec(plan: &Plan) -> Outcome {
     *multiset.entry(pos.fingerprint()).or_insert(0) += 1;
     let from_initial = start.to_fen() == Pos::startpos().to_fen();
 
+    let rewrap_at = plan.knob("rewrap_at", 0) as usize;
     for (i, op) in plan.ops.iter().enumerate() {
         if pos.fingerprint() % 64 == 0 {
             out.state_sample.push(pos.fingerprint());
+        }
+        if rewrap_at > 0 && i == rewrap_at {
+            // the history is split across objects: the board (with its counters and undo
+            // history) lives on in a new Game whose own move list starts empty
+            stats.bump("fault/game-object-replaced-mid-game");
+            game = Game::from_board(game.board().clone(), depth);
         }
         let legal = pos.legal_moves();
         match op {
